@@ -48,9 +48,28 @@ theorem C07_errc_closes_after_cancel (inp : Input) (s : Sys) (h : Reachable cfg 
       s'.merr.closed = true :=
   packet_errc_closes_after_cancel (wf_of_sideConds side_conditions) (returnGuarded_of_sideConds side_conditions) h hc
 
-/-! Full statements not yet proved (no proof claimed): they need the `Drain` invariant
-    (Proofs/ConcPacketDefs.lean: a goroutine that left its loop has seen its input closed and empty) and
-    `BufInv` (buffer exclusivity), whose preservation proofs are not finished. -/
+/-- **C07_final** (terminal form, partial): every uncancelled run with N ≥ 1 workers that has terminated
+    (all goroutines returned, error stream drained) delivered, as a multiset, exactly one frame per
+    error-free request to the writer and exactly one error per error request, failed build, failed write
+    and receiver error to the error consumer — any N, any request list, any failure pattern, any schedule.
+    Partial: frames are identified by the request the written packet was made for (`writtenG`); that the
+    BYTES the writer saw are that request's bytes is `C07_bytes_full` (buffer exclusivity), not proved. -/
+theorem C07_final_partial (inp : Input) (s : Sys) (h : ReachableNC cfg inp s) (hn : 0 < inp.n)
+    (ht : Terminated s) :
+    (s.writtenG.map Tok.frame ++ s.errsOut.map pktTok).Perm
+      (inp.reqs.map tokOf ++ (writeErrs s.written).map Tok.err ++ inp.rcvErrs.map Tok.err) :=
+  packet_final (wf_of_sideConds side_conditions) h hn ht
+
+/-- **C07_done** (partial in the same sense): in every state of every uncancelled run in which `done` is
+    closed, every error-free request of the input has already been handed to the writer (as many writes
+    for it as it occurs in the input): completion is signalled only after the last frame. -/
+theorem C07_done_partial (inp : Input) (s : Sys) (h : ReachableNC cfg inp s) (hn : 0 < inp.n)
+    (hdone : s.done = true) (r : Req) :
+    (s.writtenG.map Tok.frame).count (.frame r) = (inp.reqs.map tokOf).count (.frame r) :=
+  packet_done (wf_of_sideConds side_conditions) h hn hdone r
+
+/-! Full statements not yet proved (no proof claimed): byte exactness needs `BufInv` (buffer exclusivity,
+    Proofs/ConcPacketDefs.lean), whose preservation proof is not written; progress is not written. -/
 
 /-- terminal form: all goroutines returned and the error stream drained ⇒ the writer received exactly the
     frames built for the error-free requests, byte for byte, and the error stream carried exactly one
